@@ -209,5 +209,19 @@ theorem mse_backprop (bm : BMode) (H : Heap ℝ) (p t n : Nat) (hR : Reach bm H)
     field_simp
     ring
 
+/-- the hypotheses of `mse_backprop` are satisfiable: a tracked prediction leaf and an untracked target leaf of length 2 -/
+example : ∃ (H : Heap ℝ) (p t n : Nat), Reach BMode.mean H ∧ p < H.size ∧ t < H.size ∧ (H.val p).WF ∧ (H.val t).WF ∧
+    (H.val p).dims = [n] ∧ (H.val t).dims = [n] ∧ H.tracked p = true ∧ H.dirty p = false ∧ H.tracked t = false ∧
+    H.dirty t = false := by
+  refine ⟨#[⟨⟨[2], [1, 2]⟩, freshCtx true⟩, ⟨⟨[2], [0, 1]⟩, freshCtx false⟩], 0, 1, 2, ?_, by simp, by simp, ?_, ?_, rfl, rfl,
+    by simp [Heap.tracked, Heap.ctx, freshCtx], by simp [Heap.dirty, Heap.ctx, freshCtx],
+    by simp [Heap.tracked, Heap.ctx, freshCtx], by simp [Heap.dirty, Heap.ctx, freshCtx]⟩
+  · exact Reach.leaf (v := ⟨[2], [0, 1]⟩) (b := false) (r := 1)
+      (Reach.leaf (v := ⟨[2], [1, 2]⟩) (b := true) (r := 0) Reach.empty rfl) rfl
+  · refine ⟨by simp [Heap.val, prod], ?_⟩
+    intro d hd; simp [Heap.val] at hd; omega
+  · refine ⟨by simp [Heap.val, prod], ?_⟩
+    intro d hd; simp [Heap.val] at hd; omega
+
 end C13z
 end Qeep
